@@ -124,6 +124,20 @@ def expected(n, slots_base, strides_base, stride_off0):
     return ("load", d)
 
 
+def expected_static(n, slots, strides):
+    """walk with compile-time offsets: slot_k = slots[k], stride_k = strides[k-1] (as generated)."""
+    W = ("const", 8)
+
+    def vt(j):
+        return ("load", sym.mk_add([("vptr", j), ("const", 8 * slots[j])]))
+    d = vt(0)
+    if n == 1:
+        return d
+    for k in range(1, n):
+        d = sym.mk_add([d, sym.mk_mul([vt(k), ("const", strides[k - 1]), W])])
+    return ("load", d)
+
+
 def source_groups(fn, has_this=True):
     groups = callpath.arg_groups(fn)
     src = [g for g in groups if g[0] != "<sret>"]
@@ -142,7 +156,10 @@ def check_unit(run, u, rule, do_resolve=True):
         ss = ss_global(mod, ns)
         if ss is None:
             raise Exception("slots_strides global of %s not found" % ns)
-        exp = expected(n, ("global", ss), ("global", ss), n - 1)
+        if ent.get("static"):
+            exp = expected_static(n, ent["slots"], ent["strides"])
+        else:
+            exp = expected(n, ("global", ss), ("global", ss), n - 1)
         targets = []
         for f in find_method_fn(mod, ns, "operator()"):
             # the indirect call through the resolved pointer
